@@ -26,11 +26,11 @@ CLAIMED = {
    note="prefixes of 2-6 calls; the inductive extension to unbounded streams is NOT claimed (would need injected states); FFT stub",
    technique="bounded model checking of compiled code (Kani/CBMC SAT), index-signal observation, integer accounting"),
  "C08": dict(cat="other", ref="DESIGN.md sections 5 C08, 11",
-   text="(a) mirsym executes the MIR of interp_septic/quintic/cubic/lin (and the sinc-side cubic/quad/lin) with T := Real and z3+cvc5 decide exactness for ALL real x and ALL polynomials of admissible degree (unsat of the negation; cvc5 cross-check on basis+linearity). (b) Kani: window selection and uniform instants: frame j is evaluated at -4+(j+1)/ratio (FastFixedOut symbolic ratio; FastFixedIn Quintic/Septic/Cubic at concrete non-integer ratios).",
+   text="(a) mirsym executes the MIR of interp_septic/quintic/cubic/lin (and the sinc-side cubic/quad/lin) with T := Real and z3+cvc5 decide exactness for ALL real x and ALL polynomials of admissible degree (unsat of the negation; cvc5 cross-check on basis+linearity). (b) Kani: window selection and uniform instants: frame j is evaluated at -4+(j+1)/ratio (FastFixedOut symbolic ratio; FastFixedIn Quintic/Septic/Cubic at concrete non-integer ratios; FastFixedOut with an output chunk smaller than the ratio, i.e. calls that take no new input).",
    note="real-number reading of generic T (assumption A-round bridges to floats); (b) bounded to 2-3 calls, chunk <= 8",
    technique="SMT (z3 nlsat + cvc5) over symbolic execution of rustc MIR; bounded model checking (Kani) for window selection"),
  "C09": dict(cat="model_checking", ref="DESIGN.md sections 5 C09, 11",
-   text="The global allocator entry points are stubbed by asserting wrappers; one real-time section per harness covers getters, process_into_buffer (plain, masked, all-masked, after a ramped change, after set_chunk_size to a different size, after reset, error path with malformed input), both setters with EVERY f64, set_chunk_size with every usize; all seven types.",
+   text="The global allocator entry points - the four public ones and the private realloc_nonnull / dealloc_nonnull that Vec growth and drops use in this std - are stubbed by asserting wrappers (three must-fail witnesses: process(), Vec::resize, drop); one real-time section per harness covers getters, process_into_buffer (plain, masked, all-masked, after a ramped change, after set_chunk_size to a different size, after reset, error path with malformed input), both setters with EVERY f64, set_chunk_size with every usize; all seven types.",
    note="2 channels, chunk 2-4; allocations inside the real realfft are outside (stub allocates exactly where realfft's scratch-less process() would); log feature off",
    technique="bounded model checking of compiled code (Kani/CBMC SAT) with allocator stubs"),
  "C10": dict(cat="model_checking", ref="DESIGN.md sections 5 C10, 11",
@@ -50,8 +50,8 @@ CLAIMED = {
    note="2 channels, chunk 1-3; FFT planner stubbed; untagged panics count as C13 violations",
    technique="bounded model checking of compiled code (Kani/CBMC SAT) over symbolic buffer shapes"),
  "C14": dict(cat="model_checking", ref="DESIGN.md sections 5 C14, 11",
-   text="Index-signal observation: for every frame inside the stream |j - (tau_j*ratio + output_delay())| <= max(1,ratio)+1 with the ratio symbolic (every accepted f64) on FastFixedOut; SincFixedOut with the probe (window centre) - recorded finding F8 (reported sinc_len*ratio/2, measured ~0, confirmed natively).",
-   note="FFT types outside (delay is a property of the real FFT filter; the stub has none); FastFixedIn shares the start position checked under C08(b)",
+   text="Index-signal observation: for every frame inside the stream |j - (tau_j*ratio + output_delay())| <= max(1,ratio)+1 with the ratio symbolic (every accepted f64) on FastFixedOut, and after a stepped change to 2.0 / 0.5 on FastFixedIn; SincFixedOut with the probe (window centre) - recorded finding F8 (reported sinc_len*ratio/2, measured ~0, confirmed natively).",
+   note="FFT types outside (delay is a property of the real FFT filter; the stub has none)",
    technique="bounded model checking of compiled code (Kani/CBMC SAT) with index-signal observation"),
  "C15": dict(cat="other", ref="DESIGN.md sections 5 C15, 11",
    text="mirsym executes the MIR of pack_sincs + get_sinc_interpolated(_unsafe) of the AVX/SSE f32/f64 kernels and of the scalar kernel on symbolic waves and tables (T := Real, intrinsics modelled lane-wise): result == plain dot product (z3+cvc5 unsat), logged read footprint == [index,index+len), no access outside the allocations; dispatch: make_interpolator and the three ::new pass identical argument tuples to make_sincs.",
@@ -62,8 +62,8 @@ CLAIMED = {
    note="2 channels, chunk 2-6, FastFixedOut / SincFixedIn / FFT representatives",
    technique="bounded model checking of compiled code (Kani/CBMC SAT), twin instances"),
  "C17": dict(cat="model_checking", ref="DESIGN.md sections 5 C17, 11",
-   text="f32/f64 twins with the same symbolic schedule (ratio: every accepted f64 on fixed-output, k/32 on fixed-input; ramp): all getters, setter results and returned counts equal; copy-only kernels: out32 == (out64 as f32) exactly; real constructors (table generation) size everything alike for both sample types.",
-   note="numeric closeness of Cubic/Quintic/Septic/sinc/FFT kernels is NOT claimed (error analysis beyond SAT)",
+   text="f32/f64 twins with the same symbolic schedule (ratio: every accepted f64 on fixed-output, k/32 on fixed-input; ramp): all getters, setter results and returned counts equal; copy-only kernels: out32 == (out64 as f32) exactly; real constructors (table generation) size everything alike for both sample types; polynomial resamplers far into the buffer (ratio 0.0199, ~50 input frames per output frame, alternating 0/1 input, every interpolating degree of FastFixedIn and FastFixedOut): f32 output within 16 f32 epsilons of the peak of the f64 output.",
+   note="numeric closeness is decided only on those concrete far-position runs (solver evaluates the f32/f64 arithmetic of the real code); a general error analysis of blending/sinc/FFT kernels is NOT claimed",
    technique="bounded model checking of compiled code (Kani/CBMC SAT), twin instances"),
 }
 
